@@ -103,6 +103,8 @@ def strategy(tier):
         st.tuples(st.just("del"), karg, st.just(b""), syn),
         st.tuples(st.just("subtrie"), sarg, st.just(b""), syn),
         st.tuples(st.just("subtrie"), sarg, st.just(b""), syn),
+        # point the same object at an earlier root (index into the ledger) and go on from there
+        st.tuples(st.just("reroot"), st.tuples(st.just("lit"), st.just(b"\x00")), st.just(b""), st.integers(0, 40)),
     )
     return st.lists(op, min_size=3, max_size=20 if tier == "quick" else 60)
 
@@ -215,6 +217,13 @@ def run_case(case):
     refusals = compress = splits = 0
     for no, op in enumerate(case):
         kind, kspec, val, syn = op
+        if kind == "reroot":
+            old = order[syn % len(order)]
+            t.root_hash = old
+            model = dict(ledger[old])
+            info.label("re-pointed-root")
+            check_reads(t, model, lookups(model, b"\x00"), True)
+            continue
         k = resolve_arg(kspec, model)
         val = resolve_bin_val(val, db)
         before_root = bytes(t.root_hash)
